@@ -19,7 +19,8 @@ RULE = (
     "true chain of a drawn node, then generalised / perturbed per step by drawn bits. For each "
     "xpath: findall has no duplicates and equals, as a set, {n | match(root, n)} over every node of "
     "the tree; find is findall's first element or None; node.find/findall agree; and both equal the "
-    "reference semantics of pbt/xpath_ref.py evaluated on the node's root chain (isinstance, field, "
+    "(trees that hold a given-up node next to the node that took over its id: findall against the "
+    "reference only, both objects must be yielded) reference semantics of pbt/xpath_ref.py evaluated on the node's root chain (isinstance, field, "
     "index with all digits significant, root without field/index, absolute first step = root only). "
     "non-trivial = >= 2 real steps and a result set that is neither empty nor everything."
 )
@@ -120,6 +121,8 @@ def check_tree(data: dict, lab: Labels) -> None:
         parent[c.uid] = (p, fn, i)
     chains = {e.uid: chain_of(e, parent) for e in nodes}
     any_nt = False
+    same_id_pairs = len({b.of(e).id for e in nodes}) < len(nodes)  # a given-up node next to its successor
+    lab.tag_if(same_id_pairs, "two-objects-one-id")
     for xp in data["xpaths"]:
         if xp[0] == "raw":
             steps, relative, ws = xp[1], xp[2], xp[3]
@@ -141,9 +144,12 @@ def check_tree(data: dict, lab: Labels) -> None:
         require(len({id(n) for n in found}) == len(found), "findall-duplicates", text)
         found_ids = {id(n) for n in found}
         uid = {id(b.of(e)): e.uid for e in nodes}
-        matched = {id(b.of(e)) for e in nodes if x.match(root, b.of(e))}
-        require(found_ids == matched, "findall-vs-match",
-                f"{text!r}: findall {sorted(uid.get(i, -1) for i in found_ids)} match {sorted(uid[i] for i in matched)}")
+        if not same_id_pairs:
+            # (match() goes through Tree, whose tables are keyed by id: defined for trees without two
+            # objects of one id only)
+            matched = {id(b.of(e)) for e in nodes if x.match(root, b.of(e))}
+            require(found_ids == matched, "findall-vs-match",
+                    f"{text!r}: findall {sorted(uid.get(i, -1) for i in found_ids)} match {sorted(uid[i] for i in matched)}")
         require(found_ids == exp_ids, "xpath-vs-documented-semantics",
                 f"{text!r}: library {sorted(uid.get(i, -1) for i in found_ids)} reference {sorted(e.uid for e in exp)}")
         f1 = x.find(root) if hasattr(x, "find") else root.find(x)
@@ -168,6 +174,7 @@ def check_tree(data: dict, lab: Labels) -> None:
 
 def st_case(ctx: Ctx):
     g = T.TreeGen(leaves=ctx.pick(10, 14), share=False, twins=True, origin_rate=0.05)
+    g2 = T.TreeGen(leaves=ctx.pick(8, 10), share=False, twins=True, origin_rate=0.0, detach_rate=0.3)
     raw = st.tuples(st.just("raw"), X.st_steps(CLASS_NAMES, FIELD_NAMES), st.booleans(), st.integers(0, 2**12)).map(list)
     derived = st.tuples(st.just("derived"), st.integers(0, 60), st.integers(0, 2**30), st.integers(0, 500),
                         st.sampled_from([0, 0, 0, 5, 1023, 77])).map(list)
@@ -175,7 +182,7 @@ def st_case(ctx: Ctx):
                        st.integers(0, 2**16)).map(list)
     return st.fixed_dictionaries(
         {
-            "tree": st.one_of(g.inner_tree(), g.inner_tree(), g.tree()),
+            "tree": st.one_of(g.inner_tree(), g.inner_tree(), g.inner_tree(), g.tree(), g2.inner_tree()),
             "xpaths": st.lists(st.one_of(raw, derived, derived, subseq, subseq), min_size=5, max_size=5),
         }
     )
